@@ -129,7 +129,7 @@ def path_sig(site, want_ok, want_at, got_ok, got_at, ph, inc):
 PHASE_TEXT = {"key": "the token after a list name: a value of the first key of the key statement", "in": "a child name (container / top level)",
               "entry": "a child name (list entry)", "val": "the value after a leaf / leaf-list name", "done": "nothing: a value was the last element",
               "end:key": "end of input on a list name", "end:keys": "end of input on the first key value of a list with several keys",
-              "end:in": "end of input on a container", "end:entry": "end of input on a list entry", "end:val": "end of input on a leaf / leaf-list name",
+              "end:in": "end of input on a container", "end:entry": "end of input on a list entry", "end:val": "end of input on a leaf / leaf-list name (only the name of a LEAF of type empty is complete without a value)",
               "end:done": "end of input on a value"}
 
 
@@ -259,7 +259,10 @@ def run_c17(ctx):
                            "every generated path was replayed on ModelSet.Validate in both modes (verdict, offending position and token decoded from the structured error); "
                            "recorded events of random walks on sampled schemas were judged by the same operators in SchemaPathTrace")
     return ctx.finish(cov, [
-        "value spaces: string accepts every token, int8 accepts the tokens 5 7 -3 and rejects identifiers (type validation itself is C16)",
+        "value spaces: string accepts every token, int8 accepts the tokens 5 7 -3 and rejects identifiers, empty accepts the empty token, boolean true / false, "
+        "enumeration { on, off } its names, union { int8, boolean } what a member accepts (type validation itself is C16)",
+        "a path that stops at a leaf / leaf-list name is complete only for a LEAF of type empty (RFC 6020 9.11); an entry of a leaf-list is identified by its value (7.7) "
+        "whatever its type, so the name of a leaf-list of type empty is accepted only when incomplete paths are allowed",
         "the offending element is decoded from the structured error: unknown-element -> Path + info tag, invalid value -> last element of Path, "
         "missing value / child -> one past Path (message of schema.NewMissingValueError distinguishes it)",
         "the empty path is not judged; no must/when/leafref, one module",
@@ -438,7 +441,7 @@ MANIFEST = {
              "name, typed last value after a leaf name, endings by mode) and the first offending element; TLC proves a per-token walk machine, the generated "
              "language and the prefix characterisation of 'first offending' agree on 24 shapes; every bounded path (viable prefixes, corruptions, over-long tails) "
              "is replayed on ModelSet.Validate in both modes comparing verdict, offending position and token; random walks on TLC-sampled schemas are judged by SchemaPathTrace.",
-             note="types limited to string/int8/empty, boolean for key leaves (C16 owns value spaces); lists with several keys are judged up to their first key value only; the empty path is unjudged", design="4 C17", technique=TECH),
+             note="types string/int8/empty/boolean/enumeration/union, direct and through typedefs, for leaves, leaf-lists and key leaves (C16 owns value spaces: only tokens beyond doubt are used); lists with several keys are judged up to their first key value only; the empty path is unjudged", design="4 C17", technique=TECH),
  "C18": dict(text="DataValidate.tla defines Violations (mandatory leaf/choice, min-elements nodes missing under an existing parent through non-presence containers and "
              "active cases; min/max-elements; unique over descendant leaves) and Decorate (defaults under existing parents and non-presence containers, active else "
              "default case) from RFC 6020; TLC checks idempotence, explicit data kept, only defaults added; all data trees of 15 shapes within bounds are replayed on "
